@@ -12,9 +12,10 @@ git diff -- src ':!src/cwe_checker_lib/tests' > "$OUT/patch.diff"
 cp src/cwe_checker_lib/tests/seed_demo.rs "$OUT/seed_demo.rs" 2>/dev/null
 UT=$(cargo test -p cwe_checker_lib --offline --lib 2>&1 | grep "^test result" | tail -1)
 DEMO_WITH=$(cargo test -p cwe_checker_lib --offline --test seed_demo 2>&1 | grep "^test result" | tail -1)
-git stash push -q -- src/cwe_checker_lib/src src/caller 2>/dev/null
+# (no `git stash`: the stash is shared between all worktrees of a repository)
+git apply -R "$OUT/patch.diff"
 DEMO_WITHOUT=$(cargo test -p cwe_checker_lib --offline --test seed_demo 2>&1 | grep "^test result" | tail -1)
-git stash pop -q
+git apply "$OUT/patch.diff"
 CHECK=$(cd /verif && VERIF_REPO=$WT ./check "$PID" 2>&1 | tail -1)
 REPLAY=$(echo "$CHECK" | sed -n 's/.*replay=\([^ ]*\).*/\1/p')
 VERDICT=""
